@@ -71,6 +71,10 @@ pub unsafe extern "C" fn clock_gettime(clock: i32, ts: *mut Timespec) -> i32 {
     syscall(SYS_CLOCK_GETTIME, clock as c_long, ts) as i32
 }
 
+/// ... and so is what a fresh allocation contains: see `mos_simrt::alloc_seam`.
+#[global_allocator]
+static ALLOCATOR: mos_simrt::alloc_seam::PoisonAlloc = mos_simrt::alloc_seam::PoisonAlloc;
+
 fn main() {
     let args: Vec<String> = std::env::args().collect();
     std::process::exit(mos::verif_harness::main(&args));
